@@ -1,16 +1,19 @@
 #!/usr/bin/env python3
 """bin/seedtest.py <name> <change-dir> <Cxx> [<Cyy> ...]
-Confirms a seeded change (patch.diff + demo.py + meta.json), runs the named checks against
-/repo with the change applied, undoes it, and stores everything under /verif/seeded/<name>/.
-Never commits to /repo."""
+Confirms a seeded change (patch.diff + demo.py + meta.json) and runs the named checks against
+a tree with the change applied, then undoes it, and stores everything under
+/verif/seeded/<name>/.  By default the tree is /repo itself (git apply / git checkout -- .);
+with SEED_TREE=<dir> (a scratch worktree of /repo at HEAD) the checks run against that tree
+through VERIF_REPO, leaving /repo untouched.  Never commits anywhere."""
 import json, os, shutil, subprocess, sys, time
 V = os.path.dirname(os.path.dirname(os.path.abspath(__file__)))
 name, cdir, checks = sys.argv[1], sys.argv[2], sys.argv[3:]
-env = dict(os.environ, PYTHONPATH="/repo/src", PYTHONHASHSEED="0")
+TREE = os.environ.get("SEED_TREE", "/repo")
+env = dict(os.environ, PYTHONPATH=TREE + "/src", PYTHONHASHSEED="0", VERIF_REPO=TREE)
 def sh(cmd, **kw):
     p = subprocess.run(cmd, shell=isinstance(cmd, str), stdout=subprocess.PIPE, stderr=subprocess.STDOUT, text=True, **kw)
     return p.returncode, p.stdout
-assert sh("git -C /repo status --porcelain")[1].strip() == "", "/repo not clean"
+assert sh("git -C " + TREE + " status --porcelain -uno")[1].strip() == "", "tree not clean"
 out = os.path.join(V, "seeded", name)
 os.makedirs(out, exist_ok=True)
 for f in ("patch.diff", "demo.py", "meta.json"):
@@ -18,24 +21,24 @@ for f in ("patch.diff", "demo.py", "meta.json"):
 res = {"name": name, "checks": {}, "ran": []}
 rc0, o0 = sh(["/venv/bin/python", os.path.join(out, "demo.py")], env=env, cwd="/tmp")
 res["demo_clean_rc"] = rc0
-rc, o = sh("git -C /repo apply " + os.path.join(out, "patch.diff"))
+rc, o = sh("git -C " + TREE + " apply " + os.path.join(out, "patch.diff"))
 assert rc == 0, o
 try:
     rc1, o1 = sh(["/venv/bin/python", os.path.join(out, "demo.py")], env=env, cwd="/tmp")
     res["demo_patched_rc"] = rc1
     res["demo_patched_out"] = o1[-400:]
-    rcb, ob = sh([os.path.join(V, "bin", "baseline")])
+    rcb, ob = sh("cd %s && /venv/bin/python -m pytest -q -p no:cacheprovider --timeout=900 --continue-on-collection-errors 2>&1 | tail -1" % TREE, env=env)
     res["baseline_patched"] = ob.strip().split("\n")[0]
     for c in checks:
         t = time.time()
-        rcc, oc = sh([os.path.join(V, "bin", "check"), c, "--tier", "quick"], cwd=V)
+        rcc, oc = sh([os.path.join(V, "bin", "check"), c, "--tier", "quick"], cwd=V, env=env)
         lines = [l for l in oc.split("\n") if l.startswith("VIOLATION") or l.startswith("  what:")]
         res["checks"][c] = {"rc": rcc, "detected": rcc != 0, "wall_s": round(time.time() - t, 1), "lines": [l[:300] for l in lines[:6]]}
         res["ran"].append("./bin/check %s --tier quick" % c)
 finally:
-    sh("git -C /repo checkout -- .")
-assert sh("git -C /repo status --porcelain")[1].strip() == ""
-res["confirmed"] = (rc0 == 0 and res.get("demo_patched_rc") not in (0, None) and "566 passing" in res.get("baseline_patched", ""))
+    sh("git -C " + TREE + " checkout -- .")
+assert sh("git -C " + TREE + " status --porcelain -uno")[1].strip() == ""
+res["confirmed"] = (rc0 == 0 and res.get("demo_patched_rc") not in (0, None) and "566 pass" in res.get("baseline_patched", ""))
 meta = json.load(open(os.path.join(out, "meta.json")))
 meta["verification"] = res
 json.dump(meta, open(os.path.join(out, "meta.json"), "w"), indent=1)
